@@ -1,6 +1,7 @@
 package main
 
 import (
+	"sync/atomic"
 	"bytes"
 	"io"
 	"encoding/json"
@@ -126,6 +127,9 @@ func checkC06(c *Ctx) {
 		c.Add("traces_validated_against_impl", 1)
 	}
 	wg.Wait()
+	for _, f := range replayTickBeforeTerminalSync() {
+		c.Violation(f.Key, f.What, map[string]interface{}{"scenario": "tick-before-terminal-sync"})
+	}
 	for _, f := range replayLockedSyncContention() {
 		c.Violation(f.Key, f.What, map[string]interface{}{"scenario": "locked-sync-contention"})
 	}
@@ -641,6 +645,80 @@ func replayLockedSyncContention() (finds []Finding) {
 		} else if !ok {
 			finds = append(finds, Finding{Key: "C06/not-synced-before-terminal", What: fmt.Sprintf("a %v entry was written to a lock-protected buffering sink; another goroutine held that sink's lock when the entry's Sync was due; when the terminal action ran the entry was still in the buffer (flushed so far: %q)", lvl, atHook)})
 		}
+	}
+	return finds
+}
+
+// ---- a flush tick between the terminal entry's Write and its Sync, on a slow destination ----
+
+type termSlowSink struct {
+	mu      sync.Mutex
+	data    []byte
+	entered chan struct{}
+	release chan struct{}
+	once    sync.Once
+}
+
+func (s *termSlowSink) Write(p []byte) (int, error) {
+	cp := append([]byte(nil), p...)
+	s.once.Do(func() { close(s.entered); <-s.release })
+	s.mu.Lock()
+	s.data = append(s.data, cp...)
+	s.mu.Unlock()
+	return len(p), nil
+}
+func (s *termSlowSink) Sync() error { return nil }
+
+// replayTickBeforeTerminalSync: the entry is in the BufferedWriteSyncer's buffer; the periodic flush fires and is
+// busy writing to a slow destination when the entry's own Sync (before the terminal action) arrives. When the
+// terminal action runs, the entry is at the destination.
+func replayTickBeforeTerminalSync() (finds []Finding) {
+	defer func() { zapcore.VerifHook = nil }()
+	for _, lvl := range []zapcore.Level{zapcore.FatalLevel, zapcore.PanicLevel} {
+		sink := &termSlowSink{entered: make(chan struct{}), release: make(chan struct{})}
+		clk := newHarnessClock()
+		bws := &zapcore.BufferedWriteSyncer{WS: sink, Size: 4096, FlushInterval: time.Hour, Clock: clk}
+		core := zapcore.NewCore(termEnc(), bws, zapcore.DebugLevel)
+		atHook := ""
+		hook := &termHook{snap: func() { sink.mu.Lock(); atHook = string(sink.data); sink.mu.Unlock() }}
+		lg := zap.New(core, zap.WithFatalHook(hook), zap.WithPanicHook(hook), zap.ErrorOutput(zapcore.AddSync(io.Discard)))
+		lg.Info("warm-up") // starts the flush loop; stays in the buffer
+		var fired int32
+		zapcore.VerifHook = func(site string, obj interface{}, a, b int64) {
+			if site != "bws.y.enter" || obj != interface{}(bws) || !atomic.CompareAndSwapInt32(&fired, 0, 1) {
+				return
+			}
+			// the entry's own Sync is about to start: the periodic flush gets in first and reaches the destination
+			clk.ch <- time.Now()
+			select {
+			case <-sink.entered:
+			case <-time.After(2 * time.Second):
+			}
+			go func() { time.Sleep(60 * time.Millisecond); close(sink.release) }()
+		}
+		done := make(chan struct{})
+		go func() {
+			defer close(done)
+			defer func() { recover() }()
+			lg.Log(lvl, termMsgText)
+		}()
+		select {
+		case <-done:
+		case <-time.After(5 * time.Second):
+			finds = append(finds, Finding{Key: "C06/terminal-not-run", What: fmt.Sprintf("a %v entry through a BufferedWriteSyncer never completed when a flush tick fired before its Sync", lvl)})
+			continue
+		}
+		zapcore.VerifHook = nil
+		if atomic.LoadInt32(&fired) == 0 {
+			finds = append(finds, Finding{Key: "HARNESS/C06-tick", What: "the entry's Sync was never observed"})
+			continue
+		}
+		if hook.ran != 1 {
+			finds = append(finds, Finding{Key: "C06/terminal-not-run", What: fmt.Sprintf("%v entry: the terminal hook ran %d times", lvl, hook.ran)})
+		} else if !strings.Contains(atHook, "final-message") {
+			finds = append(finds, Finding{Key: "C06/not-written-before-terminal", What: fmt.Sprintf("a %v entry was written to a BufferedWriteSyncer; the periodic flush fired before the entry's own Sync and was still writing to a slow destination; when the terminal action ran the destination held %q", lvl, atHook)})
+		}
+		go func() { defer func() { recover() }(); bws.Stop() }()
 	}
 	return finds
 }
